@@ -139,6 +139,8 @@ pub struct ModelTurn {
     pub line: Option<u64>,
     pub was_reply: bool,
     pub digest: Option<Vec<String>>,
+    /// this turn executed only a `:` separator
+    pub separator: bool,
 }
 
 pub fn digest_if_quiescent(sess: &Session) -> Option<Vec<String>> {
@@ -242,7 +244,7 @@ pub fn run_model(prog: &Program, seed: u64, replies: &[String], turn_cap: usize)
                 }
                 let events = m.step();
                 let digest = if m.status != Status::Running { Some(model_digest(&m)) } else { None };
-                run.turns.push(ModelTurn { events, status: m.status.clone(), line: None, was_reply: false, digest });
+                run.turns.push(ModelTurn { events, status: m.status.clone(), line: None, was_reply: false, digest, separator: m.last_step_was_separator });
             }
             Status::AwaitingInput => {
                 if run.turns.len() >= turn_cap {
@@ -253,7 +255,7 @@ pub fn run_model(prog: &Program, seed: u64, replies: &[String], turn_cap: usize)
                 run.replies_given += 1;
                 let events = m.reply(&text);
                 let digest = if m.status != Status::Running { Some(model_digest(&m)) } else { None };
-                run.turns.push(ModelTurn { events, status: m.status.clone(), line: None, was_reply: true, digest });
+                run.turns.push(ModelTurn { events, status: m.status.clone(), line: None, was_reply: true, digest, separator: false });
             }
             _ => break,
         }
@@ -263,7 +265,18 @@ pub fn run_model(prog: &Program, seed: u64, replies: &[String], turn_cap: usize)
     run.kinds = m.kinds_executed.iter().copied().collect();
     run.max_frames = m.max_frames;
     run.max_loops = m.max_loops;
-    run.lines_visited = m.lines_visited.clone();
+    // the lines execution passes through = lines on which a statement is entered (collapsed)
+    let mut visited: Vec<u64> = vec![];
+    for t in &run.turns {
+        for e in &t.events {
+            if let Ev::Trace(l) = e {
+                if visited.last() != Some(l) {
+                    visited.push(*l);
+                }
+            }
+        }
+    }
+    run.lines_visited = visited;
     run
 }
 
